@@ -16,14 +16,19 @@ inline void with_range(int src, const std::vector<int> &vals, F &&f) {
 constexpr int MAXK = 3;
 constexpr int MAXL = 16;
 
+/// Two places for one container.  The second one is a valid address for V (a multiple of alignof(V)) chosen to differ
+/// from the first modulo the next larger power of two, so that anything derived from the object's own address (instead
+/// of from its type) shows when the container is relocated (C14).
 struct Slot {
-  alignas(64) unsigned char buf[2][sizeof(V)];
+  static constexpr size_t kA = alignof(V);
+  static constexpr size_t kOff = ((sizeof(V) + kA - 1) / kA) * kA + kA;
+  alignas(256) unsigned char buf[kOff + sizeof(V) + 256];
   int cur = 0;
   bool alive = false;
   const void *birth = nullptr;  // begin() right after construction (FixedCapacityVector: must never change)
-  V &v() { return *std::launder(reinterpret_cast<V *>(buf[cur])); }
-  void *raw() { return buf[cur]; }
-  void *other() { return buf[cur ^ 1]; }
+  V &v() { return *std::launder(reinterpret_cast<V *>(raw())); }
+  void *raw() { return buf + (cur ? kOff : 0); }
+  void *other() { return buf + (cur ? 0 : kOff); }
 };
 
 struct MS {
